@@ -414,6 +414,74 @@ def rule_taint(ctx):
     ctx.floor('C14.M4.backward', 8)
 
 
+def rule_unmapped(ctx):
+    """mu_r and epsilon_r are not mapped.  Where Model treats all defined
+    properties in one loop, anything that depends on the mapping
+    (`self.map...`) may only act on the mapped properties (property_x/y/z):
+    otherwise the same physical model is averaged differently under another
+    parametrisation."""
+    mm = ctx.repo.mod('emg3d/models.py')
+    n = 0
+    for meth in ('interpolate_to_grid', 'extract_1d'):
+        fn = mm.method('Model', meth)
+        loops = [l for l in ast.walk(fn) if isinstance(l, ast.For) and
+                 ast.unparse(l.iter) == 'self._def_properties' and
+                 isinstance(l.target, ast.Name)]
+        ctx.anchor(len(loops) == 1, f'property loop in Model.{meth}')
+        lp = loops[0]
+        pv = lp.target.id
+        # locals (defined before the loop) that depend on the mapping
+        mapdep = set()
+        for st in ast.walk(fn):
+            if isinstance(st, ast.Assign) and st.lineno < lp.lineno and \
+                    'self.map' in ast.unparse(st.value):
+                for t in st.targets:
+                    if isinstance(t, ast.Name):
+                        mapdep.add(t.id)
+        uses = []
+        for x in ast.walk(lp):
+            if isinstance(x, ast.Attribute) and ast.unparse(x) == 'self.map':
+                uses.append(x)
+            if isinstance(x, ast.Name) and x.id in mapdep and isinstance(
+                    x.ctx, ast.Load):
+                uses.append(x)
+        for u in uses:
+            # guarded by a test on the loop variable (directly or through a
+            # local bound from it inside the loop)
+            pdep = {pv}
+            for st in ast.walk(lp):
+                if isinstance(st, ast.Assign) and any(
+                        isinstance(y, ast.Name) and y.id in pdep
+                        for y in ast.walk(st.value)) and \
+                        'getattr' not in ast.unparse(st.value):
+                    for t in st.targets:
+                        if isinstance(t, ast.Name):
+                            pdep.add(t.id)
+            guarded = any({y.id for y in ast.walk(t) if isinstance(
+                y, ast.Name)} & pdep for t, _p in au.guards_of(u, lp))
+            st_ = au.enclosing_stmt(u)
+            inline = False
+            q_ = au.parent(u)
+            while q_ is not None and q_ is not st_:
+                if isinstance(q_, ast.BoolOp) and {
+                        y.id for y in ast.walk(q_)
+                        if isinstance(y, ast.Name)} & pdep:
+                    inline = True
+                if isinstance(q_, ast.IfExp) and {
+                        y.id for y in ast.walk(q_.test)
+                        if isinstance(y, ast.Name)} & pdep:
+                    inline = True
+                q_ = au.parent(q_)
+            n += 1
+            ctx.check('C14.M5.unmapped', f'Model.{meth} `{au.stext(st_)[:60]}`',
+                      guarded or inline, 'a mapping-dependent choice is '
+                      f'applied to every defined property of the loop over '
+                      f'`{pv}`, also to mu_r / epsilon_r, which are not '
+                      'mapped: their average depends on the parametrisation '
+                      'of the conductivity', ctx.where(mm, st_))
+    ctx.need(n >= 2, 'no mapping-dependent treatment in the property loops')
+
+
 def run(ctx):
     ctx.explanation = (
         'forward/backward/derivative_chain of the six Map classes are lifted '
@@ -428,6 +496,7 @@ def run(ctx):
     rule_maps(ctx)
     rule_validation(ctx)
     rule_taint(ctx)
+    rule_unmapped(ctx)
     # computing with a model must not change it (MapConductivity.backward
     # hands out the model's own array): shared with C02
     from . import c02
